@@ -146,7 +146,6 @@ def do_run(V, root, versions, hooks, checker, order, tag, trace):
 
 
 def scenario(inst, V):
-    from jaxtyping._import_hook import Typechecker, _optimized_cache_from_source
     if inst["kind"] == "tags":
         return scenario_tags(inst, V)
     root = fresh_forest()
